@@ -2117,6 +2117,12 @@ func (e *Engine) builtin(st *State, name string, args []Value, call *ssa.Call, p
 			return Ite(lt, a, b)
 		}
 		return Ite(lt, b, a)
+	case "Sizeof", "Alignof":
+		t := call.Call.Args[0].Type()
+		if name == "Sizeof" {
+			return BV(64, uint64(sizes.Sizeof(t)))
+		}
+		return BV(64, uint64(sizes.Alignof(t)))
 	case "SliceData": // unsafe.SliceData
 		sl := args[0].(SliceV)
 		if sl.obj == 0 {
